@@ -102,6 +102,27 @@ pub fn mangle(f: &mut Vec<u8>, cfg: &FaultCfg, rng: &mut Rng, st: &mut FaultStat
                 f[24..26].copy_from_slice(&c.to_be_bytes());
                 st.hit("ip-header-variation");
             }
+        } else if et == ET_IP6 && f.len() >= 54 && rng.chance(1, 4) {
+            // an extension header (hop-by-hop, routing, destination options, fragment) between the
+            // IPv6 header and the transport header: the packet's next protocol is then not one the
+            // responder supports, whatever comes behind
+            let nh = f[20];
+            let ext_type = *rng.pick(&[0u8, 43, 60, 44]);
+            let ext: Vec<u8> = if ext_type == 44 {
+                vec![nh, 0, 0, 0, 0x12, 0x34, 0x56, 0x78]
+            } else if ext_type == 43 {
+                vec![nh, 0, 0, 0, 0, 0, 0, 0]
+            } else {
+                vec![nh, 0, 1, 4, 0, 0, 0, 0]
+            };
+            f[20] = ext_type;
+            let pl = (((f[18] as usize) << 8) | f[19] as usize) + 8;
+            f[18] = (pl >> 8) as u8;
+            f[19] = pl as u8;
+            let tail = f.split_off(54);
+            f.extend_from_slice(&ext);
+            f.extend_from_slice(&tail);
+            st.hit("ipv6-extension-header");
         } else if et == ET_IP6 && f.len() >= 54 {
             match rng.below(3) {
                 0 => {
